@@ -129,6 +129,18 @@ Definition numbers_distance (a b : pynum) (mx : float) : dres :=
       end
     end.
 
+(** ** the guard of the "0 only for equal values" theorem: the difference is a
+    finite non-zero float, the divisor is finite (no overflow) and the quotient
+    has magnitude at least 2^(emin+1) (no underflow) *)
+Definition sf_is_zero (s : spec_float) : bool := match s with S754_zero _ => true | _ => false end.
+Definition sf_is_finite (s : spec_float) : bool := match s with S754_finite _ _ _ => true | _ => false end.
+Definition sf_mag (s : spec_float) : Z :=
+  match s with S754_finite _ m e => (Zpos (digits2_pos m) + e)%Z | _ => 0%Z end.
+Definition zero_guard (x y mx : float) : bool :=
+  let u := Prim2SF (x - y) in
+  let d := Prim2SF ((x + y) / mx) in
+  sf_is_finite u && sf_is_finite d && (emin + 2 <=? sf_mag u - sf_mag d)%Z.
+
 (** ** the numpy variant used when pairing homogeneous number sequences
     (element-wise; float64 arrays; no exceptions, division by zero yields
     inf/nan).  [_numpy_div (num1 - num2) divisor replace_inf_with=max_] then
